@@ -224,6 +224,10 @@ func AESCTRStream(key, iv []byte) (cipher.Stream, error) {
 		return nil, err
 	}
 
+	if len(iv) != blockCipher.BlockSize() {
+		return nil, errcode.ErrCode_ErrInvalidInput
+	}
+
 	stream := cipher.NewCTR(blockCipher, iv)
 
 	return stream, nil
